@@ -101,3 +101,12 @@ From PKOCorr Require Import PhaseCorr C01Corr C05Sound C01Sound.
 Theorem C01_monitor_sound : forall c : pcase, C01Corr.monitor (set_obs c (model_run c)) = true.
 Proof. exact C01Sound.monitor_sound. Qed.
 Print Assumptions C01_monitor_sound.
+
+(** C01 at the controller level (coq/corr/SetMonitors.v m01: a collision is reported as
+    Available=False/CollisionDetected for the generation read, or the stored condition is re-sent unchanged):
+    the monitor accepts every pass of the ObjectSet controller model. *)
+From PKO Require Import ObjectSet.
+From PKOCorr Require Import SetCorr SetMonitors SetMonSound SetMonSound2.
+Theorem C01_set_monitor_report_sound : forall c : scase, m01 (set_obs_s c (SetCorr.model_run c)) = true.
+Proof. exact m01_sound. Qed.
+Print Assumptions C01_set_monitor_report_sound.
